@@ -32,7 +32,8 @@ from vlib.harness import Check, Mismatch, Part
 ENCODINGS = {
     "utf-8": (["utf-8", "UTF-8", "utf8"], ["é", "日本", "Привет", "ß€", "😀"]),
     "latin-1": (["latin-1", "iso-8859-1", "ISO-8859-1", "latin1"],
-                ["é", "ß", "ñ", "Ã©", "½"]),
+                # (also C1 control characters: Latin-1 is not windows-1252)
+                ["é", "ß", "ñ", "Ã©", "½", "\x85", "a\x91b\x92", "\x9f"]),
     "iso-8859-15": (["iso-8859-15", "ISO-8859-15"], ["é", "€", "ß", "Œ"]),
     "cp1251": (["windows-1251", "cp1251"], ["Привет", "мир", "Ж"]),
     "cp1252": (["windows-1252", "cp1252"], ["é", "€", "“x”", "ß"]),
